@@ -105,6 +105,10 @@ CHECKS = {
    note="pydantic ValidationError counts as ValueError. A mismatch inside one bloc's cohesion dictionary is not judged.",
    ref="§4 C20"),
 }
+STATEFUL = ("; stateful workloads: the same object used twice, look-alike requests back to back in one process (siblings, decoys), "
+            "inputs asserted unchanged, repeated requests must meet the same random choice points")
+
+
 def main():
     checks = []
     for pid in ALL:
@@ -119,7 +123,7 @@ def main():
           "engine": "vk",
           "level_claimed": {"category": c.get("level", "exploration"), "text": c["text"], "design_ref": c["ref"]},
           "level_note": c["note"],
-          "technique": c["technique"],
+          "technique": c["technique"] + STATEFUL,
         })
     man = {
       "version": 1,
